@@ -598,6 +598,16 @@ Lemma text_witnesses :
   /\ prop_C18_text (error_text demo_tree_tame) = true.
 Proof. vm_compute. repeat split. Qed.
 
+(* the tree-aware form of the text oracle: same verdicts on the witnesses, and two different
+   diagnostics that print the same line are not a repetition *)
+Lemma text_tree_witnesses :
+  prop_C18_text_tree demo_tree_two_errors (error_text demo_tree_two_errors) = false
+  /\ prop_C18_text_tree demo_tree_parent_child (error_text demo_tree_parent_child) = false
+  /\ prop_C18_text_tree demo_tree_tame (error_text demo_tree_tame) = true
+  /\ prop_C18_text (error_text demo_tree_two_voids) = false
+  /\ prop_C18_text_tree demo_tree_two_voids (error_text demo_tree_two_voids) = true.
+Proof. vm_compute. repeat split. Qed.
+
 Lemma nodup_text_refuted : exists tree, prop_C18_text (error_text tree) = false.
 Proof. exists demo_tree_two_errors. apply text_witnesses. Qed.
 
